@@ -194,6 +194,9 @@ class Register:
         step = resolve_annotated_value(step)
         stop = resolve_annotated_value(stop)
 
+        if step < 1:
+            raise JaqalError("Invalid slice step.")
+
         return len(range(start, stop, step))
 
     def resolve_qubit(self, idx, context=None):
